@@ -31,6 +31,21 @@ def one(job):
             r.shuffle(vals)
             text = json.dumps([{"status": v, "tags": r.sample(vals, 3)} for v in vals])
             argv_opts = r.choice([[], ["-f", "pydantic"], ["-f", "dataclasses", "-s", "nested"]]) + ["--max-strings-literals", "16"]
+        elif idx % 6 == 5:
+            def reorder(v):
+                if isinstance(v, list):
+                    return [reorder(x) for x in v]
+                if isinstance(v, dict):
+                    items = [(k, reorder(x)) for k, x in v.items()]
+                    r.shuffle(items)
+                    return dict(items)
+                return v
+            base_s = g.samples(depth=4, nmax=2)
+            if r.random() < 0.6:      # a list field holding objects of two shapes, as in event streams
+                base_s[0]["events"] = [{"kind": "a", "x": 1, "y": "s"}, {"kind": "b", "target": {"id": 1, "name": "n"}, "ts": 1.5}]
+            samples = base_s + [dict(s_) for s_ in base_s] + [reorder(s_) for s_ in base_s]
+            text = json.dumps(samples)
+            argv_opts = r.choice([[], ["-f", "pydantic", "-s", "nested"], ["--merge", "number_2"]])
         else:
             samples = g.samples(depth=4, nmax=4)
             text = json.dumps(samples)
